@@ -26,6 +26,7 @@ type Mutant struct {
 	Reverse    bool     `json:"reverse,omitempty"`
 	Note       string   `json:"note,omitempty"`
 	Benign     bool     `json:"-"` // negative control: a behaviour-preserving refactoring, nothing may be reported
+	Residual   []string `json:"-"` // documented residual reports of a negative control (benign/residual.json): tolerated
 }
 
 func loadMutants(verif string) ([]Mutant, error) {
@@ -58,9 +59,21 @@ func loadMutants(verif string) ([]Mutant, error) {
 	// negative controls: behaviour-preserving refactorings written by independent sub-agents (benign/README.md)
 	bens, _ := filepath.Glob(filepath.Join(verif, "benign", "*", "patch.diff"))
 	sort.Strings(bens)
+	// documented residuals: refactorings that change a signature or remove an anchor in a way a rule cannot follow;
+	// the listed obligations answer "undecided: re-confirm" there (DESIGN.md section 9)
+	var residual map[string]struct {
+		Keys []string `json:"keys"`
+		Why  string   `json:"why"`
+	}
+	if rb, err := os.ReadFile(filepath.Join(verif, "benign", "residual.json")); err == nil {
+		if err := json.Unmarshal(rb, &residual); err != nil {
+			return nil, fmt.Errorf("benign/residual.json: %v", err)
+		}
+	}
 	for _, b := range bens {
 		rel, _ := filepath.Rel(verif, b)
-		ms = append(ms, Mutant{Name: "benign/" + filepath.Base(filepath.Dir(b)), Patch: rel, Benign: true})
+		id := filepath.Base(filepath.Dir(b))
+		ms = append(ms, Mutant{Name: "benign/" + id, Patch: rel, Benign: true, Residual: residual[id].Keys})
 	}
 	return ms, nil
 }
@@ -143,6 +156,9 @@ func doSelfTestTo(prop, repo, verif string, w io.Writer) int {
 		}
 		if o.m.Benign && o.ok && st == "caught" {
 			st = "quiet"
+			if strings.HasPrefix(o.msg, "RESIDUAL") {
+				st = "resid."
+			}
 		}
 		if o.m.Benign && !o.ok {
 			st = "ALARM"
@@ -198,8 +214,19 @@ func runMutant(self, repo, verif string, m Mutant) (bool, string) {
 	}
 	if m.Benign {
 		var alarms []string
+		nres := 0
 		for _, o := range res.Obligations {
 			if o.Status != core.Discharged && !baseline[o.Key()] && (propRules == nil || propRules[o.Rule]) {
+				tolerated := false
+				for _, k := range m.Residual {
+					if strings.HasPrefix(o.Key(), k) {
+						tolerated = true
+					}
+				}
+				if tolerated {
+					nres++
+					continue
+				}
 				alarms = append(alarms, o.Key())
 			}
 		}
@@ -209,6 +236,9 @@ func runMutant(self, repo, verif string, m Mutant) (bool, string) {
 				alarms = append(alarms[:4], "…")
 			}
 			return false, "false alarm on a behaviour-preserving refactoring: " + strings.Join(alarms, ", ")
+		}
+		if nres > 0 {
+			return true, fmt.Sprintf("RESIDUAL: %d documented report(s) (benign/residual.json), nothing else", nres)
 		}
 		return true, "nothing reported"
 	}
